@@ -537,7 +537,7 @@ def op_iterate(rng, inp):
 # C05 / C01: element assignment
 
 
-def op_setitem(rng, inp, malformed=False, via_series=False, force_multi=False, force_ragged=False):
+def op_setitem(rng, inp, malformed=False, via_series=False, force_multi=False, force_ragged=False, force_vkind=None):
     arr, n = inp["arr"], len(inp["rows"])
     box_term = "true"
     schema = inp["schema"]
@@ -599,7 +599,7 @@ def op_setitem(rng, inp, malformed=False, via_series=False, force_multi=False, f
         vkind = "nea"          # the ragged row inside a raw Arrow (chunked) struct array
     if force_ragged:
         # a VALID key over at least one target and the right number of values: only the raggedness of one offered row is wrong
-        vkind = rng.choice(["row", "rows", "nea", "nea"])
+        vkind = force_vkind or rng.choice(["row", "rows", "nea", "nea"])
         if not targets:
             kind = "int"
             z = rng.randint(-n, n - 1) if n else 0
@@ -772,7 +772,7 @@ def op_set_flat(rng, inp, via="array", malformed=False):
         form = rng.choice(["pa", "pa_chunked", "series_arrow", "numpy", "list", "series_numpy"])
         if not vals and form == "pa_chunked":
             form = "pa"        # pa.array(<empty ChunkedArray>) infers the null type: Arrow's inference, not generated
-        if form in ("numpy", "list", "series_numpy") and (ty in ("timestamp",) or (not keep and not vals)):
+        if form in ("numpy", "list", "series_numpy") and (ty in ("timestamp",) or (not keep and all(v is None for v in vals))):
             form = "pa"        # python / numpy values of these kinds are typed by Arrow's inference: not generated
         if form in ("numpy", "series_numpy") and ty in ("int64", "bool") and any(v is None for v in vals):
             form = "list"      # a numpy integer / boolean array cannot hold a missing value
